@@ -16,6 +16,7 @@ type Assertion struct {
 	Syms []string
 	Real bool // depends on the A-REAL idealisation
 	FromObl string // the obligation whose goal this assumption restates
+	NeedTag string // only visible to obligations carrying this tag
 }
 
 // Obligation is one proof goal.
@@ -86,6 +87,8 @@ type Ctx struct {
 	allocOf         map[string]int
 	refEpoch        map[string]int
 	allocOrd        int
+	noNote          int // >0 while havocking at a loop header (not a write of the loop body)
+	recSpecs        map[string]*recSpec
 	noAssume        map[string]bool // obligations (known findings) whose goals must not be assumed afterwards
 }
 
@@ -185,6 +188,15 @@ func (c *Ctx) assume(t *Term) {
 
 func (c *Ctx) assumeG(g, t *Term) { c.assume(tImp(g, t)) }
 
+// assumeAxiom adds a package axiom; an axiom tagged [real] is only visible to obligations tagged [real].
+func (c *Ctx) assumeAxiom(t *Term, cl *Clause) {
+	need := ""
+	if cl.Tags["real"] {
+		need = "real"
+	}
+	c.asserts = append(c.asserts, &Assertion{Seq: c.nextSeq(), Text: t.S, NeedTag: need})
+}
+
 // define introduces a named abbreviation sym = t.
 func (c *Ctx) define(hint string, t *Term) *Term {
 	if len(t.S) < 48 {
@@ -262,6 +274,9 @@ func (c *Ctx) heapGet(st *State, name string) *Term {
 }
 
 func (c *Ctx) noteWrite(name string) {
+	if c.noNote > 0 {
+		return
+	}
 	for _, k := range c.curWriteKeys {
 		m := c.blockWrites[k]
 		if m == nil {
@@ -272,8 +287,33 @@ func (c *Ctx) noteWrite(name string) {
 	}
 }
 
+// writesOnlyFresh reports whether t is old extended by stores at references allocated in this unit.
+func (c *Ctx) writesOnlyFresh(old, t *Term) bool {
+	if old == nil {
+		return false
+	}
+	for i := 0; i < 64; i++ {
+		if t.S == old.S {
+			return true
+		}
+		si := c.storeInfos[t.S]
+		if si == nil {
+			return false
+		}
+		if _, ok := c.allocOf[si.idx.S]; !ok {
+			return false
+		}
+		t = si.base
+	}
+	return false
+}
+
 func (c *Ctx) heapSet(st *State, name string, t *Term) {
-	c.noteWrite(name)
+	if strings.HasPrefix(string(c.heapSorts[name]), "(Array Int ") && c.writesOnlyFresh(st.heap[name], t) {
+		c.noteWrite("fresh:" + name)
+	} else {
+		c.noteWrite(name)
+	}
 	d := c.define(name, t)
 	if d.S != t.S {
 		if si := c.storeInfos[t.S]; si != nil {
